@@ -305,6 +305,15 @@ func vC11SGen(r *rand.Rand) *vC11SScenario {
 			if extraHolders {
 				rq.racy = true
 				rq.atts = followAtts
+				if i > 0 {
+					// a SECOND blocker on the same key does not commute with the first: which of
+					// them wins a re-election decides who ends up parked behind a leader that is
+					// released only after their deadlines (seen once in 75 000 thorough cases and
+					// once in ~50 quick runs as a model mismatch without a spec failure). The
+					// extra holders exist to occupy pool workers; they do that under a key of
+					// their own.
+					rq.name = 10 + i
+				}
 				if followAtts[0].code == 0 && rq.hold == 2 {
 					rq.hold = 1
 				}
